@@ -890,12 +890,20 @@ impl<'a> Gen<'a> {
             30..=39 => {
                 // inline IF
                 let cond = self.cond(0);
-                let then = Branch::Stmts(self.inline_stmts());
+                let mut then_stmts = self.inline_stmts();
                 let els = if self.rng.pct(40) {
                     Some(Branch::Stmts(self.inline_stmts()))
                 } else {
                     None
                 };
+                if els.is_some() && self.cfg.on && self.labels > 0 && self.rng.pct(20) {
+                    // the THEN branch ends in an ON..GOTO whose selector is out of range: it falls
+                    // through to the next line, never into the ELSE branch
+                    let t = Target::L(self.rng.usize(self.labels));
+                    let sel = *self.rng.pick(&[0i32, 2, 3]);
+                    then_stmts.push(Stmt::OnGoto(Expr::int(sel), vec![t]));
+                }
+                let then = Branch::Stmts(then_stmts);
                 let mut stmts = vec![];
                 if self.rng.pct(30) {
                     stmts.push(self.simple());
